@@ -584,7 +584,17 @@ pub(crate) mod storerec {
             let tag: u64 = if nd::any_bool() { 0 } else { 1 };
             REM_VALS[i] = tag;
             let v: V = std::mem::transmute_copy::<u64, V>(&tag);
-            Ok(Some(StoreItem { key: *key, conflict: nd::any_u64(), value: SharedValue::new(v), expiration: th::time_at(clock::get(), Duration::ZERO) }))
+            // the removed entry has no TTL, or a TTL of 1..4 s set up to 4 s ago: it may have elapsed
+            // without having been swept yet (seed C08d: such a victim must still leave through a callback)
+            let now = clock::get();
+            let expiration = if nd::any_bool() {
+                th::time_at(now, Duration::ZERO)
+            } else {
+                let back = Duration::from_secs(nd::any_u64_in(0, 4));
+                let created = if back <= now { now - back } else { now };
+                th::time_at(created, Duration::from_secs(nd::any_u64_in(1, 4)))
+            };
+            Ok(Some(StoreItem { key: *key, conflict: nd::any_u64(), value: SharedValue::new(v), expiration }))
         }
     }
 }
